@@ -249,9 +249,9 @@ struct Value {
 
         int64 = non_numeric ? 0 : atoll(v);
         if (int64 != 0 || !strcmp(v, "0")) {
-            // verify
-            char buf[vlen + 1];
-            snprintf(buf, vlen + 1, "%" PRId64, int64);
+            // verify (the decimal form of a 64 bit number is at most 20 characters: no copy as long as the token is needed)
+            char buf[24];
+            snprintf(buf, sizeof(buf), "%" PRId64, int64);
             if (!strcmp(buf, v)) {
                 // verified; can it be a hexstring too?
                 if (!(vlen & 1)) {
